@@ -11,6 +11,6 @@ EXPLANATION += " Since the rules were generalised: FillValues::next is evaluated
 UNDECIDED = "the 50,000-base window accumulator ValueIter::next (per-base sums, run-length re-encoding across window boundaries, held-back last value): arithmetic over runtime data."
 ASSUMPTIONS = [K.A_PRED, "merge_into is only called with truly overlapping non-empty values (its callers check both ends)"]
 OBLIGATIONS = [K.MERGE_QUERY, K.LOWERCASE, K.OUTPUT_TYPE, K.TRANSFORM, K.MERGE_INTO, K.FILL, K.WIG_KEEP]
-OBLIGATIONS = OBLIGATIONS + [K.WINDOW]
+OBLIGATIONS = OBLIGATIONS + [K.WINDOW, K.WINDOW_HANDOFF]
 # type-resolved rules over the MIR facts (tools/bt-mir)
 OBLIGATIONS = OBLIGATIONS + [K.MIR_COORD_ARITH]
